@@ -328,3 +328,177 @@ Proof.
 Qed.
 
 End DefUse.
+
+(* ------------------------------------------------------------------ inverse relations *)
+Lemma count_pos_In : forall x l, count x l <> 0 <-> In x l.
+Proof.
+  intros x; induction l as [|y t IH]; simpl; [tauto|].
+  destruct (x =? y) eqn:E.
+  - apply N.eqb_eq in E; subst. split; [now left|intros _; lia].
+  - apply N.eqb_neq in E. rewrite IH. split; [now right|intros [H|H]; [congruence|assumption]].
+Qed.
+
+Lemma count_count_occ : forall x l, N.to_nat (count x l) = count_occ N.eq_dec l x.
+Proof.
+  intros x; induction l as [|y t IH]; simpl; [reflexivity|].
+  destruct (N.eq_dec y x) as [->|Hne].
+  - rewrite N.eqb_refl. lia.
+  - replace (x =? y) with false by (symmetry; apply N.eqb_neq; congruence). assumption.
+Qed.
+
+Lemma same_multiset_perm : forall a b, same_multiset a b = true -> Permutation a b.
+Proof.
+  unfold same_multiset; intros a b H. apply (Permutation_count_occ N.eq_dec). intros x.
+  rewrite <- !count_count_occ. f_equal. rewrite forallb_forall in H.
+  destruct (in_dec N.eq_dec x (a ++ b)) as [Hin|Hnin].
+  - now apply N.eqb_eq, H.
+  - assert (Ha : count x a = 0).
+    { destruct (N.eq_dec (count x a) 0); [assumption|]. exfalso; apply Hnin, in_or_app; left. now apply count_pos_In. }
+    assert (Hb : count x b = 0).
+    { destruct (N.eq_dec (count x b) 0); [assumption|]. exfalso; apply Hnin, in_or_app; right. now apply count_pos_In. }
+    congruence.
+Qed.
+
+(* the users of a value, one entry per operand slot holding it, in instruction order *)
+Definition uses (f : func) (v : vref) : list N :=
+  flat_map (fun j => flat_map (fun op => if vref_eqb v (fst op) then [i_seq j] else []) (i_ops j)) (all_instrs f).
+
+Lemma users_of_uses : forall f v, users_of v (use_pairs f) = uses f v.
+Proof.
+  intros f v. unfold users_of, use_pairs, uses. induction (all_instrs f) as [|j t IH]; [reflexivity|].
+  simpl. rewrite filter_app, map_app, IH. f_equal.
+  induction (i_ops j) as [|op ops IHo]; [reflexivity|]. simpl.
+  destruct (vref_eqb v (fst op)); simpl; now rewrite IHo.
+Qed.
+
+Section Inverse.
+Variable T : tytable.
+Variable f : func.
+Variable d : cfg_dom.
+Hypothesis AF : accepted_facts T f d.
+
+Theorem preds_succs_inverse : forall a b bla blb,
+  nth_error (f_blocks f) (N.to_nat a) = Some bla -> nth_error (f_blocks f) (N.to_nat b) = Some blb ->
+  count b (b_succs bla) = count a (b_preds blb).
+Proof.
+  intros a b bla blb Ha Hb.
+  destruct (structural_parts f (af_struct _ _ _ AF)) as (_ & _ & Hblocks & _).
+  destruct (Hblocks a bla Ha) as (_ & _ & _ & Hpa). destruct (Hblocks b blb Hb) as (_ & _ & _ & Hpb).
+  unfold predsucc_ok in *. apply andb_true_iff in Hpa as [Hpa _]. apply andb_true_iff in Hpb as [_ Hpb].
+  rewrite forallb_forall in Hpa, Hpb.
+  destruct (in_dec N.eq_dec b (b_succs bla)) as [Hin|Hnin].
+  - specialize (Hpa b Hin). apply andb_true_iff in Hpa as [_ Hpa]. apply N.eqb_eq in Hpa.
+    now rewrite (nth_error_nth_N _ _ (mkB 0 [] [] []) _ Hb) in Hpa.
+  - destruct (in_dec N.eq_dec a (b_preds blb)) as [Hin'|Hnin'].
+    + specialize (Hpb a Hin'). apply andb_true_iff in Hpb as [_ Hpb]. apply N.eqb_eq in Hpb.
+      now rewrite (nth_error_nth_N _ _ (mkB 0 [] [] []) _ Ha) in Hpb.
+    + assert (count b (b_succs bla) = 0)
+        by (destruct (N.eq_dec (count b (b_succs bla)) 0); [assumption|exfalso; now apply Hnin, count_pos_In]).
+      assert (count a (b_preds blb) = 0)
+        by (destruct (N.eq_dec (count a (b_preds blb)) 0); [assumption|exfalso; now apply Hnin', count_pos_In]).
+      congruence.
+Qed.
+
+(* edges stay inside the function and BasicBlock.Index is the position *)
+Theorem block_index_is_position : forall b bl, nth_error (f_blocks f) (N.to_nat b) = Some bl -> b_index bl = b.
+Proof.
+  intros b bl Hb. destruct (structural_parts f (af_struct _ _ _ AF)) as (_ & _ & Hblocks & _).
+  now destruct (Hblocks b bl Hb).
+Qed.
+
+Lemma refs_ok_perm : forall total v r, refs_ok total (use_pairs f) v r = true ->
+  Permutation r (uses f v) /\ forall x, In x r -> x < total.
+Proof.
+  unfold refs_ok; intros total v r H. apply andb_true_iff in H as [H1 H2]. split.
+  - rewrite <- users_of_uses. now apply same_multiset_perm.
+  - intros x Hx. rewrite forallb_forall in H1. now apply N.ltb_lt, H1.
+Qed.
+
+(* Referrers of a value-defining instruction = its users, as multisets; instructions that define no
+   value have no referrer list and no type. *)
+Theorem instr_referrers_inverse : forall i, In i (all_instrs f) ->
+  match i_refs i with
+  | Some r => Permutation r (uses f (VI (i_seq i))) /\ i_ty i <> 0
+  | None => i_ty i = 0
+  end.
+Proof.
+  intros i Hi. pose proof (af_refs _ _ _ AF) as H. unfold refs_diag in H.
+  apply app_eq_nil in H as [H _]. pose proof (flat_map_nil _ _ H _ Hi) as E. simpl in E.
+  destruct (instr_refs_ok (len_N (all_instrs f)) (use_pairs f) i) eqn:Hok; [|discriminate].
+  unfold instr_refs_ok in Hok. destruct (i_refs i) as [r|].
+  - apply andb_true_iff in Hok as [H1 H2]. split; [now apply (refs_ok_perm _ _ _ H1)|].
+    apply negb_true_iff in H2. now apply N.eqb_neq.
+  - now apply N.eqb_eq.
+Qed.
+
+Lemma local_refs_perm : forall total k ctor ls, local_refs_diag total (use_pairs f) k ctor ls = [] ->
+  forall n l, nth_error ls (N.to_nat n) = Some l -> Permutation (l_refs l) (uses f (ctor n)).
+Proof.
+  unfold local_refs_diag; intros total k ctor ls H n l Hn.
+  assert (Hin : In (n, l) (number_from 0 ls)) by (apply number_from_In; split; [lia|now rewrite N.sub_0_r]).
+  pose proof (flat_map_nil _ _ H _ Hin) as E. simpl in E.
+  destruct (refs_ok total (use_pairs f) (ctor n) (l_refs l)) eqn:Hok; [|discriminate].
+  now apply (refs_ok_perm _ _ _ Hok).
+Qed.
+
+Theorem local_referrers_inverse :
+  (forall n l, nth_error (f_params f) (N.to_nat n) = Some l -> Permutation (l_refs l) (uses f (VP n))) /\
+  (forall n l, nth_error (f_free f) (N.to_nat n) = Some l -> Permutation (l_refs l) (uses f (VF n))) /\
+  (forall n l, nth_error (f_anons f) (N.to_nat n) = Some l -> Permutation (l_refs l) (uses f (VA n))).
+Proof.
+  pose proof (af_refs _ _ _ AF) as H. unfold refs_diag in H.
+  apply app_eq_nil in H as [_ H]. apply app_eq_nil in H as [H1 H]. apply app_eq_nil in H as [H2 H3].
+  repeat split; eapply local_refs_perm; eauto.
+Qed.
+
+(* ------------------------------------------------------------------ shape of blocks *)
+Lemma phi_shape_spec : forall l n seen, phi_shape_ok l n seen = true ->
+  forall k i, nth_error l k = Some i -> kind_eqb (i_kind i) KPhi = true ->
+  seen = false /\ len_N (i_ops i) = n /\
+  forall k', (k' < k)%nat -> exists i', nth_error l k' = Some i' /\ kind_eqb (i_kind i') KPhi = true.
+Proof.
+  induction l as [|x t IH]; intros n seen H k i Hn Hk; [destruct k; discriminate|].
+  simpl in H. destruct k as [|k]; simpl in Hn.
+  - injection Hn as ->. rewrite Hk in H. apply andb_true_iff in H as [H _]. apply andb_true_iff in H as [H1 H2].
+    apply negb_true_iff in H1. apply N.eqb_eq in H2. repeat split; auto. intros k' Hk'. lia.
+  - destruct (kind_eqb (i_kind x) KPhi) eqn:Ex.
+    + apply andb_true_iff in H as [H H3]. apply andb_true_iff in H as [H1 H2]. apply negb_true_iff in H1.
+      destruct (IH _ _ H3 k i Hn Hk) as (_ & Hlen & Hpre). repeat split; auto.
+      intros [|k'] Hk'; [exists x; split; [reflexivity|assumption]|]. apply Hpre. lia.
+    + destruct (IH _ _ H k i Hn Hk) as (Hs & _). discriminate.
+Qed.
+
+(* phis lead their block and have exactly one operand per predecessor *)
+Theorem phi_shape : forall b bl k i,
+  nth_error (f_blocks f) (N.to_nat b) = Some bl -> nth_error (b_instrs bl) k = Some i ->
+  kind_eqb (i_kind i) KPhi = true ->
+  length (i_ops i) = length (b_preds bl) /\
+  forall k', (k' < k)%nat -> exists i', nth_error (b_instrs bl) k' = Some i' /\ kind_eqb (i_kind i') KPhi = true.
+Proof.
+  intros b bl k i Hb Hn Hk. destruct (structural_parts f (af_struct _ _ _ AF)) as (_ & _ & Hblocks & _).
+  destruct (Hblocks b bl Hb) as (_ & _ & Hphi & _).
+  destruct (phi_shape_spec _ _ _ Hphi k i Hn Hk) as (_ & Hlen & Hpre). split; [|assumption].
+  unfold len_N in Hlen. lia.
+Qed.
+
+Lemma terminator_spec : forall l n, terminator_ok l n = true ->
+  exists pre last, l = pre ++ [last] /\ is_terminator (i_kind last) = true /\ arity_ok last n = true /\
+                   forall i, In i pre -> is_terminator (i_kind i) = false.
+Proof.
+  induction l as [|x t IH]; intros n H; [discriminate|]. simpl in H. destruct t as [|y t'].
+  - apply andb_true_iff in H as [H1 H2]. exists [], x. repeat split; auto. intros i [].
+  - apply andb_true_iff in H as [H1 H2]. apply negb_true_iff in H1.
+    destruct (IH n H2) as (pre & last & E & Ht & Ha & Hpre). exists (x :: pre), last.
+    split; [simpl; now rewrite E|]. repeat split; auto. intros i [<-|Hi]; auto.
+Qed.
+
+(* every block ends in exactly one terminator whose arity matches the successor list *)
+Theorem terminators : forall b bl, nth_error (f_blocks f) (N.to_nat b) = Some bl ->
+  exists pre last, b_instrs bl = pre ++ [last] /\ is_terminator (i_kind last) = true /\
+    arity_ok last (len_N (b_succs bl)) = true /\ forall i, In i pre -> is_terminator (i_kind i) = false.
+Proof.
+  intros b bl Hb. destruct (structural_parts f (af_struct _ _ _ AF)) as (_ & _ & Hblocks & _).
+  destruct (Hblocks b bl Hb) as (_ & Ht & _). now apply terminator_spec.
+Qed.
+
+End Inverse.
